@@ -218,8 +218,11 @@ Definition compare_props (x1 x2 : schema) : res (list tdiff) :=
         if nonempty d then Ok d else Ok (check_numeric x1 x2).
 
 (* ---------- type_adapters.go ---------- *)
-Definition for_items (x : simple) : schema :=
-  Schema [] [si_typ x] (si_format x) [] (si_vals x) None [] [] [].
+Fixpoint for_items (x : simple) : schema :=
+  match x with
+  | Simple typ format _ _ _ _ v items =>
+      Schema [] [typ] format [] v (match items with Some it => Some (for_items it) | None => None end) [] [] []
+  end.
 (* forParam / forHeader *)
 Definition for_simple (x : simple) : schema :=
   Schema [] [si_typ x] (si_format x) [] (si_vals x) (option_map for_items (si_items x)) [] [] [].
